@@ -74,6 +74,7 @@ func (eng *Engine) verifyFunctionSpec(fn *ssa.Function, modes Modes, spec map[st
 		}
 	}
 	res.Contract = ct
+	g.topCt = ct
 	defer func() {
 		if r := recover(); r != nil {
 			if ce, ok := r.(contractError); ok {
@@ -112,6 +113,13 @@ func (eng *Engine) verifyFunctionSpec(fn *ssa.Function, modes Modes, spec map[st
 	}
 	for _, k := range []string{"P", "MP"} {
 		g.assume(fmt.Sprintf("(forall ((r Int) (o Int)) (! (< (pref (select (select %s r) o)) %s) :pattern ((select (select %s r) o))))", st0.H[k], st0.Next, st0.H[k]))
+	}
+	if ct != nil && ct.Inlines != nil {
+		// function values that exist at entry are not closures created during the call (closure identities are allocated
+		// from 2000001 on, one per MakeClosure executed)
+		for _, k := range []string{"F", "MF"} {
+			g.assume(fmt.Sprintf("(forall ((r Int) (o Int)) (! (=> (is-bOpaque (ibox (select (select %s r) o))) (< (ubOpaque (ibox (select (select %s r) o))) 2000000)) :pattern ((select (select %s r) o))))", st0.H[k], st0.H[k], st0.H[k]))
+		}
 	}
 	// initial contents of immutable package-level variables (constants stored by the package initialiser)
 	refd := map[*ssa.Global]bool{}
@@ -419,8 +427,48 @@ func (a *Act) checkPost(r retInfo) {
 			g.assumeIf(r.reach, c)
 		}
 	}
+	a.checkRefines(r)
 	if g.eng.probes {
 		g.oblige("PROBE", fmt.Sprintf("return-reachable:%s", a.srcDetail(r.instr)), r.reach, "false", a.pos(r.instr.Pos()), "must-fail reachability probe at return").probe = true
+	}
+}
+
+// checkRefines: a method whose receiver type implements an interface for whose method of the same name a contract is
+// declared (key pkg.Iface.Method) must satisfy that contract with self = the receiver boxed in the interface
+// (obligation kind "refine"): this is what makes the interface contract usable at calls through the interface.
+func (a *Act) checkRefines(r retInfo) {
+	g := a.g
+	eng := g.eng
+	recv := a.fn.Signature.Recv()
+	if recv == nil || len(a.args) == 0 {
+		return
+	}
+	for _, key := range eng.sortedContractKeys() {
+		ict := eng.contracts[key]
+		parts := strings.Split(key, ".")
+		if len(parts) != 3 || parts[2] != a.fn.Name() || ict.FnType {
+			continue
+		}
+		p := eng.pkgByPath(ict.PkgPath)
+		if p == nil {
+			continue
+		}
+		obj := p.Scope().Lookup(parts[1])
+		if obj == nil {
+			continue
+		}
+		it, ok := obj.Type().Underlying().(*types.Interface)
+		if !ok || !types.Implements(recv.Type(), it) {
+			continue
+		}
+		st := r.st.clone()
+		self := g.def(a.nm("self"), "Iface", a.makeIface(recv.Type(), a.args[0], st, a.nm("selfbox")))
+		cs := &callSite{a: a, ct: ict, fn: nil, args: append([]string{self}, a.args[1:]...), pre: g.entry, res: r.vals}
+		for i, cl := range ict.Ensures {
+			for j, c := range cs.evalClause(cl, st, g.entry) {
+				g.oblige("refine", fmt.Sprintf("%s:%s:%s", key, clauseLabel(cl, i, j), a.srcDetail(r.instr)), r.reach, c, a.pos(r.instr.Pos()), "interface contract "+key+": ensures "+cl.Text)
+			}
+		}
 	}
 }
 
